@@ -321,6 +321,8 @@ def scenario_kwargs(env, name, n, hess_fn, record):
         return {"bounds": [(-0.25, 0.375)] * n}
     if name == "bounds-obj":
         return {"bounds": spopt.Bounds(np.full(n, -0.125), 0.25)}
+    if name == "bounds-container":
+        return {"bounds": spopt.Bounds(record["lo"], record["hi"])}
     if name == "constraints-eq":
         return {"constraints": {"type": "eq", "fun": lambda v: np.sum(v) - 1.0, "jac": lambda v: np.ones_like(v)}}
     if name == "constraints-ineq":
@@ -349,6 +351,7 @@ SCENARIO_METHODS = {
     "tol-zero": ["BFGS", "CG"],
     "bounds-pairs": ["L-BFGS-B", "TNC", "SLSQP", "trust-constr", "Powell", "Nelder-Mead", "COBYLA"],
     "bounds-obj": ["L-BFGS-B", "SLSQP", "trust-constr"],
+    "bounds-container": ["L-BFGS-B", "TNC", "SLSQP", "Powell"],
     "constraints-eq": ["SLSQP"],
     "constraints-ineq": ["SLSQP", "COBYLA"],
     "constraints-lin": ["trust-constr", "SLSQP"],
@@ -402,8 +405,33 @@ def run_minimize_case(env, ctx, model, case, known_id=None, func_override=None):
     n = layout.n
     hess_fn = flat_hessian(env, func, layout, args) if (scen.startswith("hess") or method in NEEDS_HESS) else None
     rec_ref, rec_impl = [], []
+    box = None
+    if scen == "bounds-container":
+        # bounds given as containers L <= U of x0's form (entrywise, real and imaginary parts separately), flattened with the
+        # MODEL's layout (theorem C18_bounds_layout): some of them cut the unconstrained minimiser t off
+        rngb = np.random.Generator(np.random.PCG64(seed + 17))
+
+        def shift(c, lo):
+            blocks = c.arrays if isinstance(c, env.BlockArray) else [c]
+            out = []
+            for b in blocks:
+                a = np.asarray(b)
+                d = (rngb.integers(-2, 3, size=a.shape) / 8.0) + (-0.375 if lo else 0.375)
+                if a.dtype.kind == "c":
+                    d = d + 1j * ((rngb.integers(-2, 3, size=a.shape) / 8.0) + (-0.375 if lo else 0.375))
+                out.append(env.jnp.array((a + d).astype(a.dtype)))
+            return env.BlockArray(out) if isinstance(c, env.BlockArray) else out[0]
+
+        Lc, Uc = shift(t, True), shift(t, False)
+        lo = np.array(b2fs(model.call("flatten", x0=container_json(env, Lc))["v"]), dtype=float)
+        hi = np.array(b2fs(model.call("flatten", x0=container_json(env, Uc))["v"]), dtype=float)
+        box = (Lc, Uc)
+        rec_ref = {"lo": lo, "hi": hi}
+        rec_impl = {"lo": lo, "hi": hi}
     kw_ref = scenario_kwargs(env, scen, n, hess_fn, rec_ref)
     kw_impl = scenario_kwargs(env, scen, n, hess_fn, rec_impl)
+    if box is not None:
+        rec_ref, rec_impl = [], []
     if method in NEEDS_HESS and not scen.startswith("hess"):
         # these solvers cannot run without second-order information: supply it in both calls
         for kw in (kw_ref, kw_impl):
@@ -466,6 +494,21 @@ def run_minimize_case(env, ctx, model, case, known_id=None, func_override=None):
         gx = got_x.arrays[0] if isinstance(got_x, env.BlockArray) else got_x
         if str(gx.dtype) != form["dtype"]:
             problems.append(f"dtype {gx.dtype} != {form['dtype']}")
+        if box is not None:
+            # the consequence the theorem promises to users: the returned container lies entrywise in [L, U]
+            def parts(c):
+                blocks = c.arrays if isinstance(c, env.BlockArray) else [c]
+                out = []
+                for b in blocks:
+                    a = np.asarray(b)
+                    out += [a.real.ravel(), a.imag.ravel()] if a.dtype.kind == "c" else [a.ravel()]
+                return np.concatenate(out) if out else np.array([])
+
+            gx_, lo_, hi_ = parts(got_x), parts(box[0]), parts(box[1])
+            eps = 1e-6 if form["dtype"] in ("float32", "complex64") else 1e-12
+            if gx_.shape != lo_.shape or np.any(gx_ < lo_ - eps) or np.any(gx_ > hi_ + eps):
+                problems.append("result is not entrywise between the bound containers L and U")
+            ctx.count(f"bounds-container:active={int(np.sum((np.abs(gx_ - lo_) < 1e-6) | (np.abs(gx_ - hi_) < 1e-6)))>0}")
         if scen == "callback":
             if len(rec_ref) != len(rec_impl) or any(not np.array_equal(a, b) for a, b in zip(rec_ref, rec_impl)):
                 problems.append(f"callback sequences differ ({len(rec_impl)} vs {len(rec_ref)} calls)")
@@ -569,6 +612,31 @@ def section_helpers(env, ctx, model):
             ctx.disagree("wrap.helpers", {"section": "helpers", "form": form, "x": xj}, bad, "model", oracle=helper_oracle(env))
 
 
+def section_helpers_boundary(env, ctx, model):
+    """`()` is the 0-d shape, never an empty nested shape; wrong lengths for nested shapes"""
+    S, jnp = env.solver, env.jnp
+    cases = [([7.0], {"nested": []}, ()), ([7.0], {"flat": []}, ()), ([1.0, 2.0], {"nested": []}, ()), ([], {"nested": []}, ()),
+             ([1.0, 2.0, 3.0, 4.0], {"nested": [[2], [3]]}, ((2,), (3,))), ([1.0, 2.0, 3.0, 4.0, 5.0, 6.0], {"nested": [[2], [3]]}, ((2,), (3,))),
+             ([1.0, 2.0, 3.0, 4.0, 5.0], {"nested": [[2], [3]]}, ((2,), (3,))), ([1.0], {"nested": [[1]]}, ((1,),)), ([], {"nested": [[0], [0]]}, ((0,), (0,)))]
+    for v, shj, shape in cases:
+        try:
+            m = ("ok", model.call("unravel", v=fs2b(np.array(v, dtype=float)), shape=shj))
+        except ModelErr as e:
+            m = ("err", e.kind)
+        try:
+            r = ("ok", S._unravel(jnp.array(np.array(v, dtype=float)), shape))
+        except Exception as e:  # noqa: BLE001
+            r = ("err", common.err_kind(e))
+        ctx.case({"section": "helpers-boundary", "len": len(v), "shape": str(shape)}, ("helpers-boundary", len(v), str(shj)))
+        ctx.count(f"helpers-boundary:model={m[0]} impl={r[0]}")
+        good = m[0] == r[0] and (m[0] == "err" or same_container(env, r[1], container_of(env, m[1], np.float64)))
+        if not good:
+            ctx.disagree("wrap.unravel-boundary", {"section": "helpers-boundary", "v": v, "shape": shj}, r[0] if r[0] == "err" else describe(env, r[1]), m[0] if m[0] == "err" else m[1],
+                         oracle=lambda c, r=r, v=v, shape=shape: ({"call": f"_unravel(array of length {len(v)}, {shape})", "returned": describe(env, r[1]),
+                                                                    "expected": "rejected (length differs from the number of scalars of the shape)"}
+                                                                   if (r[0] == "ok" and int(np.sum([int(np.prod(s)) for s in shape]) if (len(shape) and isinstance(shape[0], tuple)) else int(np.prod(shape))) != len(v)) else None))
+
+
 def helper_oracle(env):
     """property itself on the real helpers: the two round trips"""
 
@@ -659,15 +727,24 @@ def section_scalar(env, ctx, model):
     n_cases = ctx.n(6, 40)
     for it in range(n_cases):
         a = float(common.dyadic(rng, (), bits=3, scale=2.0))
-        shape1 = rng.random() < 0.3
+        oshape = [(), (), (1,), (2,), (1, 1), (2, 2), (0,), (3, 1)][int(rng.integers(0, 8))] if it > 0 else ()
+        ctx.count(f"scalar:func-result-shape={oshape}")
 
-        def f(x, s=1.5):
+        def f(x, s=1.5, oshape=oshape, a=a):
             y = (x - a) ** 2 * (x + s) ** 2 + 0.5 * (x - a) ** 2
-            return jnp.reshape(y, (1,)) if shape1 else jnp.asarray(y)
+            n = int(np.prod(oshape))
+            if oshape == ():
+                return jnp.asarray(y)
+            # the value first, then other numbers (only the first entry may be read)
+            return jnp.reshape(jnp.concatenate([jnp.reshape(jnp.asarray(y, dtype=jnp.float64), (1,)), 7.0 + jnp.arange(max(n - 1, 0), dtype=jnp.float64)])[:n], oshape)
 
-        def fref(x, *args):
-            y = f(x, *args)
-            return y.item() if y.ndim == 0 else y[0].item()
+        def fref(x, *args, f=f):
+            # what the wrapper hands to scipy according to the MODEL (`scalarOf`)
+            y = np.asarray(f(x, *args), dtype=np.float64)
+            try:
+                return common.b2f(model.call("scalar", y={"shape": list(y.shape), "re": fs2b(y.ravel())}))
+            except ModelErr as e:
+                raise (IndexError("index") if e.kind == "index" else ValueError("size")) from None
 
         calls = [
             ("default", {}),
@@ -729,7 +806,7 @@ def correspond(ctx, model):
 
     env = Env()
     timing = {}
-    for sec in (run_corpus, section_helpers, section_scalar, section_sequence, section_minimize):
+    for sec in (run_corpus, section_helpers, section_helpers_boundary, section_scalar, section_sequence, section_minimize):
         t0 = time.time()
         try:
             sec(env, ctx, model)
